@@ -73,7 +73,9 @@ let handle_proto (toks : string list) : string =
     let m = i 1 and ev = i 2 in
     let (c, r) = E.merge_pending !clients.(m) in !clients.(m) <- c; fingerprint c (rk_name r) (Some ev)
   | "RESTART" ->
-    let m = i 1 in !clients.(m) <- E.restart !clients.(m); fingerprint !clients.(m) "ok" None
+    let m = i 1 in
+    !clients.(m) <- (if Array.length a > 2 then E.restart_with !clients.(m) (n_of_int (i 2)) else E.restart !clients.(m));
+    fingerprint !clients.(m) "ok" None
   | "CLEAR" ->
     let m = i 1 in !clients.(m) <- E.clear_pending !clients.(m); fingerprint !clients.(m) "ok" None
   | "SEND" | "SENDF" ->
